@@ -47,6 +47,12 @@ def cases(tier, seed):
             if g == [1, 1]:
                 continue
             out.append({'kind': 'pipeline', 'cfg': cfg, 'grid': g, 'cost': 10 * g[0] * g[1]})
+    # the other entry point: setupFromFile on a folder without checkpoint (fresh initialisation), initial condition only
+    for start in ('flux_surface', 'v_parallel', 'poloidal'):
+        for g in ([1, 2], [2, 2], [3, 2]) if tier == 'quick' else _grids([6, 8, 7, 6], 12):
+            if g != [1, 1]:
+                out.append({'kind': 'pipeline', 'cfg': {'npts': [6, 8, 7, 6], 'start': start, 'iota': 0.8, 'mn': [3, -2], 'entry': 'file'}, 'grid': g, 'stages': 'init',
+                            'cost': 5 * g[0] * g[1]})
     dcfgs = [{'npts': [6, 8, 7, 6], 'iota': 0.0, 'steps': 1, 'save': 5}, {'npts': [6, 8, 7, 6], 'iota': 0.8, 'steps': 2, 'save': 1, 'deg': [3, 3, 4, 2]}]
     for cfg in dcfgs:
         gl = _grids(cfg['npts'], 6 if tier == 'quick' else 36)
@@ -95,7 +101,7 @@ def _pipeline(cfg, nprocs, stages='all'):
     import numpy as np
     from pgv import sim
     MPI = sim.setup()
-    from pygyro.initialisation.setups import setupCylindricalGrid
+    from pygyro.initialisation.setups import setupCylindricalGrid, setupFromFile
     from pygyro.model.layout import LayoutSwapper, getLayoutHandler, Layout
     from pygyro.model.grid import Grid
     from pygyro.poisson.poisson_solver import DensityFinder, QuasiNeutralitySolver
@@ -114,8 +120,11 @@ def _pipeline(cfg, nprocs, stages='all'):
         out = {}
         viol = []
         iv = 0.8 if cfg['iota'] == 'profile' else cfg['iota']
-        f, c, t = setupCylindricalGrid(layout=cfg['start'], npts=list(npts), comm=comm, allocateSaveMemory=True,
-                                       iotaVal=iv, eps=0.1, m=cfg['mn'][0], n=cfg['mn'][1], vMin=-6.1, splineDegrees=list(cfg.get('deg', [3, 3, 3, 3])), **GEN)
+        if cfg.get('entry') == 'file':
+            f, c, t = setupFromFile(cfg['_dir'], comm=comm, layout=cfg['start'], allocateSaveMemory=True)
+        else:
+            f, c, t = setupCylindricalGrid(layout=cfg['start'], npts=list(npts), comm=comm, allocateSaveMemory=True,
+                                           iotaVal=iv, eps=0.1, m=cfg['mn'][0], n=cfg['mn'][1], vMin=-6.1, splineDegrees=list(cfg.get('deg', [3, 3, 3, 3])), **GEN)
         if cfg['iota'] == 'profile':
             c.iota = lambda rr=None: 0.8 * (1 + 0.05 * np.asarray(rr, dtype=float))
         eta = f.eta_grid
@@ -270,8 +279,19 @@ _cache = {}
 
 
 def _run_pipeline(cfg, grid, stages='all', chooser=None):
-    from pgv import sim
-    res, w = sim.run_world(grid, _pipeline(cfg, grid, stages), chooser=chooser)
+    from pgv import sim, env
+    import os
+    d = None
+    if cfg.get('entry') == 'file':
+        d = env.scratch_dir('c05file')
+        iv = 0.8 if cfg['iota'] == 'profile' else cfg['iota']
+        sim.write_constants(os.path.join(d, 'initParams.json'), npts=list(cfg['npts']), iotaVal=iv, eps=0.1, m=cfg['mn'][0], n=cfg['mn'][1], vMin=-6.1, **GEN)
+        cfg = dict(cfg, _dir=d)
+    try:
+        res, w = sim.run_world(grid, _pipeline(cfg, grid, stages), chooser=chooser)
+    finally:
+        if d is not None:
+            env.rm(d)
     npts = cfg['npts']
     fields = {}
     viol = []
@@ -334,11 +354,12 @@ def run_case(case):
         seen.setdefault(sig, {'sig': sig, 'what': what, 'detail': {}})
     tag = 'cfg %s grid %r' % (json.dumps(cfg, sort_keys=True), grid)
     if case['kind'] == 'pipeline':
-        ref, rviol = _serial(cfg)
+        stages = case.get('stages', 'all')
+        ref, rviol = _serial(cfg, stages)
         for x in rviol:
             V('serial:' + x, 'serial world: %s (%s)' % (x, tag))
         try:
-            fields, viol, _ = _run_pipeline(cfg, grid)
+            fields, viol, _ = _run_pipeline(cfg, grid, stages)
         except Exception as e:  # noqa
             V('pipeline-exception:' + type(e).__name__, '%s: %s (%s)' % (type(e).__name__, e, tag))
             return {'evals': 1, 'nontrivial': 1, 'violations': list(seen.values()), 'stats': {}, 'sample': None}
